@@ -232,3 +232,37 @@ Fixpoint tb_differ (c : tbcfg) (s : tb) (obs : list (taction * list pkt * tbsamp
           then tb_differ c s' rest (S i) else Some (i, Some s')
       end
   end.
+
+(* ---- the hand-off: what the next hop sees of the bucket inside its put() -------------------------------- *)
+(* out.put(p) is called after the debit and before packets_sent += 1 and before the next store.get(): the next
+   hop reads packets_received, packets_sent (this packet not yet counted), current_bucket, update_time and
+   len(store.items) (a packet the following get() takes at once is still in the store).  All of it is a function
+   of the state after the action. *)
+Definition tb_hand_view (s' : tb) : tbsample :=
+  (nrecv s', (nsent s' - 1)%Z, level s', utime s', length (sq_held (tq s'))).
+
+Definition tbsample_eqb (a b : tbsample) : bool :=
+  let '(r, sn, lv, ut, n) := a in
+  let '(r', sn', lv', ut', n') := b in
+  Z.eqb r r' && Z.eqb sn sn' && Qeq_bool lv lv' && Qeq_bool ut ut' && Nat.eqb n n'.
+
+Fixpoint tb_hands_eqb (s' : tb) (fw : list pkt) (obs : list (pkt * tbsample)) : bool :=
+  match fw, obs with
+  | [], [] => true
+  | p :: fw', (q, h) :: obs' => pkt_eqb p q && tbsample_eqb (tb_hand_view s') h && tb_hands_eqb s' fw' obs'
+  | _, _ => false
+  end.
+
+(* as tb_agree, the forwarded packets paired with the state sampled by the next hop inside its put() *)
+Fixpoint tb_agree_h (c : tbcfg) (s : tb) (obs : list (taction * list (pkt * tbsample) * tbsample)) : bool :=
+  match obs with
+  | [] => true
+  | (a, outs, smp) :: rest =>
+      match tb_act c s a with
+      | None => false
+      | Some (s', outs') =>
+          tb_hands_eqb s' (forwards_of outs') outs
+          && tbsample_eqb (nrecv s', nsent s', level s', utime s', length (items (tq s'))) smp
+          && tb_agree_h c s' rest
+      end
+  end.
